@@ -372,13 +372,9 @@ func c07deletedIsMarked(c *Ctx) {
 		if !isTxClosure {
 			continue
 		}
-		cut := map[ssa.Instruction]bool{}
-		for _, cs := range engine.Calls(g) {
-			cc := cs.Common()
-			if cc.IsInvoke() && strings.HasPrefix(cc.Method.Name(), "MarkMessageAsDeleted") && cs.Instr.Parent() == g {
-				cut[cs.Instr] = true
-			}
-		}
+		cut := c.mustCallInstrs(g, func(cc *ssa.CallCommon) bool {
+			return cc.IsInvoke() && strings.HasPrefix(cc.Method.Name(), "MarkMessageAsDeleted")
+		}, 2)
 		skip := map[engine.Edge]bool{}
 		for _, b := range g.Blocks {
 			iff := engine.IfOf(b)
